@@ -153,6 +153,8 @@ impl MemoryManager {
 
     #[cold]
     pub fn free<T>(&self, pt: *mut T, num: usize) {
+        #[cfg(multiqueue2_verif)]
+        crate::verif_hooks::on_retire(pt as usize);
         let mut elemvec = self.wait_to_free.lock().unwrap();
         elemvec.push(ToFree::new(pt, num));
         {
